@@ -111,6 +111,9 @@ func (u *Unit) verifyFunc() {
 		st.Assume(u.evalSpecBool(env, r.Expr))
 	}
 	st.Assume(u.modelInvariants(st))
+	if u.variant != nil {
+		st.Assume(u.evalSpecBool(env, u.variant.Expr))
+	}
 	for _, h := range ct.Hints {
 		st.Assume(u.evalHint(env, h))
 	}
@@ -236,8 +239,62 @@ func (u *Unit) checkNormalExit(ex *Exit, n int) {
 		g := u.evalSpecBool(env, en.Expr)
 		u.oblige(st, "post", fmt.Sprintf("post:%s:exit%d", clauseLabel(en, i), n), en.props(ct), g)
 	}
+	// allocation effect (C18): unless the contract lists allocs as modifiable, the
+	// allocation counter is unchanged on this path
+	if !u.declaredModifies("allocs") {
+		cur := u.comp(st, "allocs", SInt)
+		old := u.comp(u.old, "allocs", SInt)
+		u.oblige(st, "allocs", fmt.Sprintf("alloc-free:exit%d", n), []string{"C18"}, Eq(cur, old))
+	}
+	// write footprint (C19): storage and headers of every parameter's element type that
+	// the contract does not list as modifiable are bit-for-bit unchanged
+	touched := map[string]bool{}
+	for _, pn := range u.ct.Params {
+		v, ok := u.entry[pn]
+		if !ok {
+			continue
+		}
+		var elem types.Type
+		switch v.K {
+		case KBuf:
+			elem = v.Elem
+		case KSlice:
+			elem = v.Elem
+			if in, ok := v.Elem.(*types.Slice); ok {
+				elem = in.Elem()
+			}
+		case KStruct:
+			if b, ok := v.Fields["Buffer"]; ok && b.K == KBuf {
+				elem = b.Elem
+			}
+		}
+		if elem == nil {
+			continue
+		}
+		names := []string{"H:" + elemKey(elem)}
+		for _, f := range hdrFields {
+			names = append(names, f+":"+elemKey(elem))
+		}
+		for _, name := range names {
+			if touched[name] || u.declaredModifies(name) {
+				continue
+			}
+			touched[name] = true
+			var cur, old *Term
+			if strings.HasPrefix(name, "H:") {
+				cur, old = u.heap(st, elem), u.heap(u.old, elem)
+			} else {
+				f := name[:strings.IndexByte(name, ':')]
+				cur, old = u.fld(st, elem, f), u.fld(u.old, elem, f)
+			}
+			u.oblige(st, "writes-nothing", fmt.Sprintf("writes-nothing:%s:exit%d", name, n), []string{"C19"}, Eq(cur, old))
+		}
+	}
 	// frame: every component not covered by a modifies class must be unchanged
 	for _, name := range st.memKeys() {
+		if name == "allocs" || touched[name] {
+			continue
+		}
 		t := st.mem[name]
 		o, ok := u.old.mem[name]
 		if !ok {
